@@ -1,15 +1,217 @@
-(* Props/C07.v — pinned statements for property C07 (stage 1: tree as found). *)
+(* Props/C07.v — pinned statements for property C07: object inheritance is associative,
+   late-bound and visibility-preserving.  Subject: Model/Objects.v, the layer algebra of
+   rsjsonnet-lang/src/program/data.rs copied as written (find_field, has_visible_field,
+   get_fields_order, extend_object, object_with_field_removed).  Vocabulary (defined in
+   Proofs/Objects_proofs.v): [chain o n] = the effective chain of name n, i.e. the Normal
+   fields of n met walking the layers of o from layer 0 and jumping over [depth] layers after
+   each Removed marker, as (layer index, field); [resolve] = the `:` `::` `:::` rule folded
+   from base to derived; [wf_obj] = field names unique within each layer (hash-map keys);
+   [res_shift k] renumbers the layer index of a lookup result by k.
+   This file contains only statements closed by [exact lemma], non-vacuity Examples and
+   Print Assumptions. *)
 From RJ Require Import Base.Outcome Model.Objects Proofs.Objects_proofs.
+From Coq Require Import Sorted.
 Local Open Scope N_scope.
 
+(* ---- extension ---- *)
+
+(* (a + b) + c and a + (b + c) are the same object: every observer agrees, in every
+   bracketing of every chain *)
 Theorem C07_extend_assoc : forall a b c, extend (extend a b) c = extend a (extend b c).
 Proof. exact extend_assoc. Qed.
 
-(* the faithful model of get_fields_order as found: std.objectHas says the field is
-   there and visible, the field order (manifestation, objectFields, length) omits it *)
-Theorem C07_fields_order_agree_visible_refuted :
-  exists o n, has_visible_field o n = Ok true /\ ~ In n (get_visible_fields_order o).
-Proof. exact fields_order_agree_visible_refuted. Qed.
+(* o + {} : every lookup (from the top and from inside any layer), visibility, field order,
+   visible order and length are those of o (layer indices move by one) *)
+Theorem C07_extend_empty_r : forall o, wf_obj o ->
+  let e := extend o empty_obj in
+  (forall n, find_field e 0 n = res_shift 1 (find_field o 0 n)) /\
+  (forall i n, find_field e (i + 1) n = res_shift 1 (find_field o i n)) /\
+  (forall n, has_visible_field e n = has_visible_field o n) /\
+  get_fields_order e = get_fields_order o /\
+  get_visible_fields_order e = get_visible_fields_order o /\
+  obj_length e = obj_length o.
+Proof. exact extend_empty_r. Qed.
+
+(* {} + o : the same, with unchanged indices *)
+Theorem C07_extend_empty_l : forall o, wf_obj o ->
+  let e := extend empty_obj o in
+  (forall i n, find_field e i n = find_field o i n) /\
+  (forall n, has_visible_field e n = has_visible_field o n) /\
+  get_fields_order e = get_fields_order o /\
+  get_visible_fields_order e = get_visible_fields_order o /\
+  obj_length e = obj_length o.
+Proof. exact extend_empty_l. Qed.
+
+(* ---- lookup ---- *)
+
+(* find_field from layer i: the first Normal field of that name at or after layer i, jumping
+   over [depth] layers after a Removed marker; never a panic, never out of fuel *)
+Theorem C07_find_field_spec : forall o i n,
+  find_field o i n = Ok (hd_error (eff_chain (skipn (N.to_nat i) (layers o)) i 0 n)).
+Proof. exact find_field_spec. Qed.
+
+Theorem C07_find_field_found : forall o i n j d,
+  find_field o i n = Ok (Some (j, d)) ->
+  i <= j /\ exists l, nth_error (layers o) (N.to_nat j) = Some l /\ layer_get l n = Some (Normal d).
+Proof. exact find_field_found. Qed.
+
+Theorem C07_no_panic_no_fuel : forall o i n,
+  (exists r, find_field o i n = Ok r) /\ (exists b, has_field o i n = Ok b) /\
+  (exists b, has_visible_field o n = Ok b).
+Proof. exact no_panic_no_fuel. Qed.
+
+(* super, seen from layer i, is a lookup from layer i+1: it depends on the layers to the
+   left (below) only ... *)
+Theorem C07_super_starts_left : forall o o' i n,
+  skipn (S (N.to_nat i)) (layers o) = skipn (S (N.to_nat i)) (layers o') ->
+  find_field o (i + 1) n = find_field o' (i + 1) n.
+Proof. exact super_starts_left. Qed.
+
+(* ... so inside a + b the layers of a see exactly what they saw in a *)
+Theorem C07_extend_super_of_left : forall a b i n,
+  find_field (extend a b) (i + N.of_nat (length (layers b))) n =
+  res_shift (N.of_nat (length (layers b))) (find_field a i n).
+Proof. exact extend_super_of_left. Qed.
+
+(* self is the whole object whichever layer mentions it, and finds the final override *)
+Theorem C07_self_is_final : forall fuel o vs i j g,
+  eval_body fuel o vs i (BSelf g) = eval_body fuel o vs j (BSelf g).
+Proof. exact self_is_final. Qed.
+
+Theorem C07_self_sees_override : forall a b g d,
+  layer_get (self_layer b) g = Some (Normal d) ->
+  find_field (extend a b) 0 g = Ok (Some (0, d)).
+Proof. exact self_sees_override. Qed.
+
+(* ---- visibility ---- *)
+
+Theorem C07_visibility_rule : forall o n,
+  has_visible_field o n = Ok (visible_of (resolve (chain_vis (chain o n)))).
+Proof. exact visibility_rule. Qed.
+
+Theorem C07_default_override_keeps_inherited : forall o l n d,
+  layer_get l n = Some (Normal d) -> f_vis d = Default ->
+  has_visible_field (extend o (lit l)) n =
+  match find_field o 0 n with
+  | Ok (Some _) => has_visible_field o n
+  | _ => Ok true
+  end.
+Proof. exact default_override_keeps_inherited. Qed.
+
+(* ---- field order (manifestation, std.objectFields(All), std.length) ---- *)
+
+Theorem C07_fields_order_sorted_nodup : forall o,
+  StronglySorted name_lt (map fst (get_fields_order o)) /\
+  NoDup (map fst (get_fields_order o)) /\
+  StronglySorted name_lt (get_visible_fields_order o) /\
+  NoDup (get_visible_fields_order o).
+Proof. exact fields_order_sorted_nodup. Qed.
+
+(* the visibility recorded for a name is the rule over its effective chain *)
+Theorem C07_fields_order_entry : forall o n v, wf_obj o ->
+  (In (n, v) (get_fields_order o) <-> resolve (chain_vis (chain o n)) = Some v).
+Proof. exact fields_order_entry. Qed.
+
+Theorem C07_fields_order_agree : forall o n, wf_obj o ->
+  (In n (map fst (get_fields_order o)) <-> exists j d, find_field o 0 n = Ok (Some (j, d))).
+Proof. exact fields_order_agree. Qed.
+
+Theorem C07_fields_order_agree_visible : forall o n, wf_obj o ->
+  (In n (get_visible_fields_order o) <-> has_visible_field o n = Ok true).
+Proof. exact fields_order_agree_visible. Qed.
+
+(* `in` / objectHasAll, objectHas, objectFields(All), std.length, manifested keys, o.f *)
+Theorem C07_observers_agree : forall o n, wf_obj o ->
+  (In n (map fst (get_fields_order o)) <-> has_field o 0 n = Ok true) /\
+  (In n (get_visible_fields_order o) <-> has_visible_field o n = Ok true) /\
+  (In n (get_visible_fields_order o) -> In n (map fst (get_fields_order o))) /\
+  obj_length o = N.of_nat (length (get_visible_fields_order o)) /\
+  (forall l, manifest o = Ok l -> map fst l = get_visible_fields_order o) /\
+  (has_field o 0 n = Ok false -> eval_field o n = Err EUnknownField).
+Proof. exact observers_agree. Qed.
+
+(* ---- std.objectRemoveKey ---- *)
+
+(* the named field is gone; every other name keeps its (layer, field) and visibility; lookups
+   from inside the object (super) are untouched *)
+Theorem C07_remove_key_exact : forall o n,
+  let e := remove_key o n in
+  find_field e 0 n = Ok None /\
+  has_visible_field e n = Ok false /\
+  (forall m, m <> n -> find_field e 0 m = res_shift 1 (find_field o 0 m)) /\
+  (forall m, m <> n -> has_visible_field e m = has_visible_field o m) /\
+  (forall i m, find_field e (i + 1) m = res_shift 1 (find_field o i m)).
+Proof. exact remove_key_exact. Qed.
+
+Theorem C07_remove_key_order : forall o n m v, wf_obj o ->
+  (In (m, v) (get_fields_order (remove_key o n)) <-> m <> n /\ In (m, v) (get_fields_order o)).
+Proof. exact remove_key_order. Qed.
+
+(* std.objectRemoveKey(o, n) + { n: ... }: the re-added field stands alone, with its own
+   visibility (the positive form of the repaired defect) *)
+Theorem C07_remove_then_extend : forall o n l d, wf_obj o -> wf_layer l ->
+  layer_get l n = Some (Normal d) ->
+  let e := extend (remove_key o n) (lit l) in
+  find_field e 0 n = Ok (Some (0, d)) /\
+  has_visible_field e n = Ok (negb (vis_eqb (f_vis d) Hidden)) /\
+  In (n, f_vis d) (get_fields_order e) /\
+  (In n (get_visible_fields_order e) <-> f_vis d <> Hidden).
+Proof. exact remove_then_extend. Qed.
+
+(* base + std.objectRemoveKey(o, n): the marker hides exactly the layers of o *)
+Theorem C07_extend_then_remove_hides_only_inner : forall base o n,
+  let e := extend base (remove_key o n) in
+  find_field e 0 n = res_shift (1 + N.of_nat (length (layers o))) (find_field base 0 n) /\
+  has_visible_field e n = has_visible_field base n /\
+  (forall m, m <> n -> find_field e 0 m = res_shift 1 (find_field (extend base o) 0 m)) /\
+  (forall m, m <> n -> has_visible_field e m = has_visible_field (extend base o) m).
+Proof. exact extend_then_remove_hides_only_inner. Qed.
+
+(* ---- non-vacuity: {a:: 1, b: 2} + std.objectRemoveKey({a::: 3, c::: self.a}, "a") + {a+: 4, b:: super.b}
+   is well formed, has a name in three layers and a Removed marker in between; the hypotheses
+   of every implication above are met by it (wf_obj; a Normal default-visibility top field;
+   a successful lookup) ---- *)
+Example C07_nonvacuous :
+  wf_obj example_obj /\ length (layers example_obj) = 4%nat /\
+  chain example_obj na = [(0, {| f_vis := Default; f_plus := true; f_body := BNum 4 |});
+                          (3, {| f_vis := Hidden; f_plus := false; f_body := BNum 1 |})] /\
+  get_fields_order example_obj = [(na, Hidden); (nb, Hidden); (nc, ForceVisible)] /\
+  has_visible_field example_obj na = Ok false /\
+  find_field example_obj 1 na = Ok (Some (3, {| f_vis := Hidden; f_plus := false; f_body := BNum 1 |})) /\
+  manifest example_obj = Ok [(nc, VNum 5)] /\
+  eval_field example_obj nb = Ok (VNum 2) /\
+  layer_get (self_layer example_obj) na = Some (Normal {| f_vis := Default; f_plus := true; f_body := BNum 4 |}).
+Proof. split; [exact example_wf|]. vm_compute. repeat split. Qed.
+
+(* the state machine of get_fields_order as first found ([Old]) fails the agreement on
+   std.objectRemoveKey({a:: 1}, "a") + {a: 2}; the repaired one meets it *)
+Theorem C07_prefix_defect_witness :
+  has_visible_field witness_obj nm_a = Ok true /\
+  ~ In nm_a (Old.get_visible_fields_order witness_obj) /\
+  In nm_a (get_visible_fields_order witness_obj) /\
+  manifest witness_obj = Ok [(nm_a, VNum 2)].
+Proof. exact prefix_defect_witness. Qed.
 
 Print Assumptions C07_extend_assoc.
-Print Assumptions C07_fields_order_agree_visible_refuted.
+Print Assumptions C07_extend_empty_r.
+Print Assumptions C07_extend_empty_l.
+Print Assumptions C07_find_field_spec.
+Print Assumptions C07_find_field_found.
+Print Assumptions C07_no_panic_no_fuel.
+Print Assumptions C07_super_starts_left.
+Print Assumptions C07_extend_super_of_left.
+Print Assumptions C07_self_is_final.
+Print Assumptions C07_self_sees_override.
+Print Assumptions C07_visibility_rule.
+Print Assumptions C07_default_override_keeps_inherited.
+Print Assumptions C07_fields_order_sorted_nodup.
+Print Assumptions C07_fields_order_entry.
+Print Assumptions C07_fields_order_agree.
+Print Assumptions C07_fields_order_agree_visible.
+Print Assumptions C07_observers_agree.
+Print Assumptions C07_remove_key_exact.
+Print Assumptions C07_remove_key_order.
+Print Assumptions C07_remove_then_extend.
+Print Assumptions C07_extend_then_remove_hides_only_inner.
+Print Assumptions C07_nonvacuous.
+Print Assumptions C07_prefix_defect_witness.
